@@ -303,3 +303,9 @@ TEXT["C17"]["technique"] = "Lean 4 proof (length arithmetic for all n, layout ta
 TEXT["C19"]["level"] += ("  Go layer (translated on every run): each of the 123 C calls made by the Go bindings passes arguments of exactly the parameter types of the C prototype, in number and order (cgo's check, which cannot be run here; GoView.go_calls_well_typed), "
                          "the package variables G1Zero … GTGenerator view exported C objects of exactly the type of the Go struct's Data member, and the parsed text of every Go function is the one the model was read against (go_sources_pinned).")
 TEXT["C19"]["note"] = TEXT["C19"]["note"].replace("Go bindings are read, not executed (no Go toolchain).", "Go bindings are translated, not executed (no Go toolchain): a change that keeps types and memory behaviour (two arguments of equal type swapped) is caught only by the source pin and reported with no-failing-input-found.")
+TEXT["C20"]["level"] += ("  (C20b) For the assembly back ends the re-entrancy statement is proved FROM THE MACHINE SEMANTICS, for every program: in the x86-64, AArch64 and Thumb-1 models a run changes no memory outside its writable permission set (frame), its register results and everything it writes are functions of the registers and of the readable memory only (locality), "
+                         "and two cores with private registers on one shared memory whose permission maps are compatible (neither may write what the other may read or write) reach, under EVERY schedule of single instructions, the registers of their solo runs and the memory of the sequential composition (x86_/a64_/thumb1_interleaving_eq_sequential); "
+                         "combined with the no-fault theorems of C03 this gives concrete corollaries (two concurrent fpbase_384_add / bigint_384_add calls sharing read-only operands both return the promised sums, for every schedule).")
+TEXT["C20"]["note"] = TEXT["C20"]["note"].replace("Partial: the footprint premises of the interleaving theorem are established from object-code tables, not from a semantics of machine code; races are sampled, not excluded.",
+    "Partial: for the compiled C++ the footprint premises of the interleaving theorem are established from object-code tables, not from a semantics of machine code, and races are sampled, not excluded; for the assembly routines they follow from the machine models (atomicity at the granularity of one model instruction; hardware memory ordering and sub-instruction interleaving are not modelled).")
+TEXT["C20"]["technique"] = "Lean 4 proof (finite symbol tables; abstract interleaving theorem; machine-level frame/locality/two-core interleaving theorems for the three assembly models) + multi-threaded differential runs"
